@@ -54,11 +54,26 @@ def gen_compress(rng, kinds="cCk"):
     return "k:%s:%x:%s:%d:%x:%s" % (rng.choice(("SZ1.4", "SZ1.4", "SZ2.1", "SZ")), ty, dims, kind, seed, dbits(scale)), ty >= 2
 
 
-def gen_history(rng, maxlen):
+MODE_NAMES = {0: "ABS", 1: "REL", 2: "ABS_AND_REL", 3: "ABS_OR_REL", 4: "PSNR", 5: "NORM", 10: "PW_REL"}
+
+
+def gen_threadsafe(rng):
+    """the thread-safe customize entry called with bounds of its own in the parameter block (float / double only)"""
+    t = rng.choice(SHAPES)
+    dims = ",".join("%x" % v for v in [0] * (5 - len(t)) + list(t))
+    scale = rng.choice((1.0, 100.0))
+    mode = rng.choice((0, 0, 1, 2, 3, 10))
+    return "T:%x:%x:%s:%s:%s:%s:%d:%x:%s" % (rng.choice((0, 1)), mode, dbits(rng.choice((0.5, 1e-4, 3e-2)) * scale), dbits(rng.choice((5e-2, 2e-4))),
+                                             dbits(rng.choice((3e-2, 1e-4))), dims, rng.choice((0, 1, 2, 3, 6)), rng.getrandbits(20), dbits(scale))
+
+
+def gen_history(rng, maxlen, threadsafe=0.0):
     ops, isint = [], []
     for _ in range(rng.randint(1, maxlen)):
         r = rng.random()
-        if r < 0.45 or not isint:
+        if rng.random() < threadsafe:
+            ops.append(gen_threadsafe(rng)); isint.append(False)
+        elif r < 0.45 or not isint:
             tok, ii = gen_compress(rng)
             ops.append(tok); isint.append(ii)
         elif r < 0.75:
@@ -119,6 +134,17 @@ def gen_cases(chk):
         for nm in ("SZ", "SZ1.4"):
             cases.append(("szMode=SZ_BEST_SPEED;quantization_intervals=256", [fixed, "f", "d:0"], "K:%s:%x:0,0,0,0,7d0:0:%x:%s" % (nm, ty, 0x41 + ty, dbits(100.0))))
             cases.append(("szMode=SZ_BEST_SPEED", [fixed, "d:0"], "K:%s:%x:0,0,0,1e,28:2:%x:%s" % (nm, ty, 0x43 + ty, one)))
+    # the thread-safe customize entry with bounds of its own somewhere in the history, observed: a defaults / customize compression (which reads the
+    # configured bounds) or an explicit one
+    for k in range(60 if thorough else 16):
+        cfg = rng.choice(CFGS)
+        h = gen_history(rng, 6, threadsafe=0.4)
+        if k % 4 != 3:
+            h.append(gen_threadsafe(rng))
+            if k % 4 == 1:
+                h += [rng.choice(("d:0", "m:0", "f"))]
+        obs, _ = gen_compress(rng, "CCkc")
+        cases.append((cfg, h, obs))
     # value-range protection: what the decompressor clamps to must come from the stream, not from whatever was compressed last
     for ty in (0, 1):
         for big, small in ((100.0, 1.0), (1.0, 100.0)):
@@ -126,6 +152,29 @@ def gen_cases(chk):
             b_ = "c:%x:0:%s:%s:0:0,0,0,0,3e8:2:%x:%s" % (ty, dbits(1e-3 * small), dbits(1e-3), 0x99 + ty, dbits(small))
             cases.append(("szMode=SZ_BEST_SPEED;protectValueRange=YES", [], a_ + " " + b_))
     return cases
+
+
+def left_bounds(cfg, h, obs, snaps, chk):
+    """(final configuration, index of the thread-safe operation whose bounds are still in it or None, the `hist` case of a fresh process configured with them or None)"""
+    c0 = snaps[0].split(";")[0]
+    cfin, left_by = c0, None
+    for j, sn in enumerate(snaps[1:len(h) + 1]):
+        cj = sn.lstrip("!").split(";")[0]
+        if cj != cfin and h[j][0] == "T" and cj.split(",")[:11] + cj.split(",")[15:] == cfin.split(",")[:11] + cfin.split(",")[15:]:
+            left_by = j
+        elif cj == c0:
+            left_by = None
+        cfin = cj
+    if left_by is None or obs[0] not in "CkK" or "threadsafe_leaves_bounds" not in chk.known_classes:
+        return cfin, left_by, None
+    f = cfin.split(",")
+    md = int(f[11], 16)
+    if md not in MODE_NAMES:
+        return cfin, left_by, None
+    keep = [x for x in cfg.split(";") if x != "-" and x.split("=")[0] not in ("errorBoundMode", "absErrBound", "relBoundRatio", "pw_relBoundRatio")]
+    over = ";".join(keep + ["errorBoundMode=%s" % MODE_NAMES[md]] + ["%s=%r" % (k, struct.unpack("<d", struct.pack("<Q", int(v, 16)))[0])
+                                                                   for k, v in (("absErrBound", f[12]), ("relBoundRatio", f[13]), ("pw_relBoundRatio", f[14]))])
+    return cfin, left_by, "hist %s _ %s" % (over, obs.split(" ")[0])
 
 
 def model_history(h, snaps):
@@ -139,7 +188,7 @@ def model_history(h, snaps):
         exe = sn.lstrip("!").split(";")[1]
         if skipped:
             continue
-        if op[0] in "cCk":
+        if op[0] in "cCkT":
             ty = int(op.split(":")[2 if op[0] == "k" else 1], 16)
             if nstreams < 64:
                 nstreams += 1
@@ -165,6 +214,7 @@ def run(chk):
     ho = lib.run_cases(exe, hist, timeout=3000)
     fo = lib.run_cases(exe, fresh, timeout=3000)
     mcases, midx, mexp = [], [], []
+    pending = []
     nfail = nbad = 0
     oplen = {}
     for i, ((cfg, h, obs), a, b) in enumerate(zip(cases, ho, fo)):
@@ -179,10 +229,22 @@ def run(chk):
             part = kv(a.split(" | ", 1)[1]) if (a.startswith("DIED") and " | " in a) else {}
             done_ops = len(part.get("snap", "").split("|")) - 2 if "snap" in part else -1
             if a.startswith("DIED") and not b.startswith("DIED") and "dig" in db and done_ops >= len(h):
+                over = left_bounds(cfg, h, obs, part["snap"].split("|")[:-1], chk)[2]
+                if over:        # e.g. an integer array under the point-wise relative mode a thread-safe call left in the configuration: refused (exit)
+                    pending.append((i, over, -1))
+                    continue
                 nfail += 1
                 if nfail <= 8:
                     chk.violation("the observed compression/decompression dies after the history (all %d operations of it completed) and succeeds in a fresh process, on `%s`: %s" % (len(h), hist[i][:200], a[:120]),
                                   {"case": hist[i], "fresh": fresh[i], "after_history": a[:300], "fresh_out": b[-120:], "variant": "plain"})
+            continue
+        snaps = da["snap"].split("|")[:-1]
+        c0 = snaps[0].split(";")[0]
+        cfin, left_by, over = left_bounds(cfg, h, obs, snaps, chk)
+        if da["dig"] != db["dig"] and over:
+            # the observed compression takes its bounds from the configuration, which an earlier thread-safe customize call overwrote with its own:
+            # it is that finding exactly when the reconstruction equals the one of a fresh process *configured* with the bounds left behind
+            pending.append((i, over, left_by))
             continue
         if da["dig"] != db["dig"]:
             nfail += 1
@@ -194,22 +256,52 @@ def run(chk):
         skey = "smdig" if (obs_int and da.get("wrapped") == "0") else "sdig"
         if obs_int and da.get("wrapped") != "0":
             pass        # a wrapped integer stream: the unread dmin slot (see harness) changes the wrapped bytes everywhere; the reconstruction was compared
+        elif (da[skey] != db[skey] or da["out"] != db["out"]) and over:
+            pending.append((i, over, left_by))         # the header carries the configured bounds, also those the mode does not use
+            continue
         elif da[skey] != db[skey] or da["out"] != db["out"]:
             nbad += 1
             if nbad <= 3:
                 chk.broken.append("correspondence C05 (the view is everything a compression reads): stream differs after history though the reconstruction does not, on `%s`" % hist[i][:200])
-        snaps = da["snap"].split("|")[:-1]
-        c0 = snaps[0].split(";")[0]
+        cprev = c0
         for j, sn in enumerate(snaps[1:]):
-            if sn.lstrip("!").split(";")[0] != c0:
-                nbad += 1
-                if nbad <= 3:
-                    chk.broken.append("correspondence C05 (config_preserved): configuration globals changed by operation %d `%s` of `%s`: %s -> %s" % (j, h[j][:60], hist[i][:120], c0, sn.split(";")[0]))
-                break
+            cj = sn.lstrip("!").split(";")[0]
+            if cj != cprev and not (j < len(h) and h[j][0] == "f" and cj == c0):
+                if (j < len(h) and h[j][0] == "T" and cj.split(",")[:11] + cj.split(",")[15:] == cprev.split(",")[:11] + cprev.split(",")[15:]
+                        and "threadsafe_leaves_bounds" in chk.known_classes):
+                    # bounds of the thread-safe call's parameter block left in the configuration (mode / abs / rel / pw_rel fields only)
+                    chk.known("threadsafe_leaves_bounds", chk.known_classes["threadsafe_leaves_bounds"]["text"])
+                    tf = h[j].split(":")
+                    want = ["%x" % int(tf[2], 16), tf[4].lstrip("0") or "0"]       # the absolute bound left is the one the kernels derive (AND/OR/PW_REL), the ratio the call's
+                    if [cj.split(",")[11], cj.split(",")[13]] != want and not sn.startswith("!"):
+                        nbad += 1
+                        if nbad <= 3:
+                            chk.broken.append("correspondence C05 (step_ts: the thread-safe entry leaves its own mode and ratio): operation %d `%s` of `%s` left %s" % (j, h[j][:80], hist[i][:100], cj.split(",")[11:15]))
+                else:
+                    nbad += 1
+                    if nbad <= 3:
+                        chk.broken.append("correspondence C05 (config_preserved): configuration globals changed by operation %d `%s` of `%s`: %s -> %s" % (j, h[j][:60] if j < len(h) else obs[:60], hist[i][:120], cprev, cj))
+                    break
+            cprev = cj
         toks, expect = model_history(h, snaps)
         qi = int(c0.split(",")[0], 16)
         mcases.append("hist %x %s %s" % (qi, c0.split(",")[1], "/".join(toks) or "_"))
         midx.append(i); mexp.append(expect)
+    po = lib.run_cases(exe, [c for _, c, _ in pending], timeout=3000)
+    for (i, pc, j), o in zip(pending, po):
+        cfg, h, obs = cases[i]
+        chk.cov["evaluations"] += 1
+        same_death = ho[i].startswith("DIED") and o.startswith("DIED") and ho[i].split(" | ")[0] == o.split(" | ")[0]
+        dh, do = kv(ho[i]), kv(o)
+        oint = int(obs.split(":")[2 if obs[0] in "kK" else 1], 16) >= 2
+        sk = None if (oint and dh.get("wrapped") != "0") else "smdig" if oint else "sdig"      # as for the comparison with the fresh process above
+        if same_death or (do.get("dig") == dh.get("dig") and "dig" in do and not ho[i].startswith("DIED") and (sk is None or do.get(sk) == dh.get(sk))):
+            chk.known("threadsafe_leaves_bounds", chk.known_classes["threadsafe_leaves_bounds"]["text"])
+        else:
+            nfail += 1
+            if nfail <= 8:
+                chk.violation("reconstruction after the history differs from the fresh process, and also from a fresh process configured with the bounds operation %d left in the configuration, on `%s`" % (j, hist[i][:200]),
+                              {"case": hist[i], "fresh": fresh[i], "after_history": ho[i][-120:], "fresh_out": fo[i][-120:], "fresh_with_left_bounds": pc, "variant": "plain"})
     mo = lib.run_cases(model, mcases, timeout=3000)
     for i, m, expect in zip(midx, mo, mexp):
         got = m[4:].split("|") if m.startswith("exe=") and len(m) > 4 else []
@@ -223,7 +315,7 @@ def run(chk):
                        "compared with the same pair in a fresh process; the configuration globals after every operation are compared with the initial ones and "
                        "exe_params after every operation with the model's step function")
     chk.cov["input_distribution"] = {"histories": len(cases), "history_lengths": {str(k): v for k, v in sorted(oplen.items())},
-                                     "ops": {k: sum(1 for _, h, _ in cases for o in h if o[0] == k) for k in "cCkdmf"}}
+                                     "ops": {k: sum(1 for _, h, _ in cases for o in h if o[0] == k) for k in "cCkTdmf"}}
     for c in hist[:2] + hist[10:11]:
         chk.sample(c[:200])
     chk.assumptions += ["source facts (T2): %s" % {k: notes["facts"][k] for k in ("cpr_writes", "rederives", "defaults_restored", "custom14_restored", "accel")},
